@@ -495,11 +495,20 @@ def gen_request(ctx, actor=None, ver=None, max_items=3, weights=None,
     if r.random() < p_batch:
         n = r.randint(2, max_items)
     items = [gen_op(ctx, tuple(ver), actor, weights) for _ in range(n)]
-    if items[-1]['op'] in ('Create', 'Register') and r.random() < 0.35 \
+    if items[-1]['op'] in ('Create', 'Register', 'CreateKeyPair',
+                           'DeriveKey') and r.random() < 0.35 \
             and ctx.objs and items[-1].get('label'):
-        # activate the new object in the same batch
-        items.append({'op': 'Activate'})
-        ctx.objs[-1]['state'] = 'Active'
+        # address the new object through the ID placeholder in the same
+        # batch (mostly: activate it)
+        k = r.choice(['Activate', 'Activate', 'Activate', 'GetAttributes',
+                      'Get', 'GetAttributeList', 'Revoke'])
+        if k == 'Activate':
+            items.append({'op': 'Activate'})
+            ctx.objs[-1]['state'] = 'Active'
+        elif k == 'Revoke':
+            items.append({'op': 'Revoke', 'code': r.choice([1, 2])})
+        else:
+            items.append({'op': k})
     req = {'actor': actor, 'ver': list(ver), 'items': items}
     if len(items) > 1:
         req['cont'] = r.choice([None, 1, 2, 2])
